@@ -316,7 +316,7 @@ class MethodP(Contract):
 
         def kernel(eng, args, kw, st, pc, node):
             outs = tuple(st.alloc(fresh('k_' + nm, ARR), fresh('kn_' + nm, I), 'kernel-result-' + nm) for nm in self.fields)
-            eng.ctx.kernel_calls.append((tuple(args), outs))
+            st.vars['__kcalls__'] = list(st.vars.get('__kcalls__', [])) + [(tuple(args), outs)]       # per path
             return outs
         return {nm: kernel for nm in self.KERNELS[self.kind]}
 
@@ -369,10 +369,11 @@ class MethodP(Contract):
                 out.append(('original_untouched_' + nm, bool(me[nm].buf == old.buf and st.heap[old.buf].data is c.olddata[nm])))
             return out
         # add
-        calls = c.kernel_calls
-        out.append(('one_kernel_call', len(calls) >= 1))
+        calls = st.vars.get('__kcalls__', [])
         if not calls:
-            return out
+            # a path that does not go through the kernel (a shortcut) is outside this modular contract: the bounded group
+            # of the same method, with the kernel inlined and the sum stated semantically, decides it
+            raise KeyError('a kernel call on every returning path of add')
         args, outs = calls[-1]
         want = [c.f1[nm] for nm in self.fields] + [c.f2[nm] for nm in self.fields]
         okargs = len(args) == len(want) and all(isinstance(a, ArrV) and a.buf == w.buf and a.off == 0 and a.n is w.n for a, w in zip(args, want))
